@@ -48,6 +48,12 @@ def cases(tier, seed):
         rnd.shuffle(comp)
         progs += ([e for e in c01.gen_programs(fam, 'thorough', seed) if not _has_lazy(fam, e)][:4000] if tier == 'thorough' else comp[:30])
         out += [(fam, e) for e in progs]
+    # block operators over a dict whose keys were inserted in non-sorted order (pytree order = sorted keys)
+    Lf = lambda n, i=0: ('leaf', n, i)  # noqa: E731
+    for kind, blocks in (('row', (Lf('A'), Lf('D', 1))), ('row', (Lf('A'), Lf('D', 1), Lf('Tz', 2))), ('col', (Lf('A'), Lf('W', 1))), ('col', (Lf('W'), Lf('A', 1), Lf('D', 2))),
+                         ('diag', (Lf('A'), Lf('W', 1))), ('diag', (Lf('W'), Lf('D', 1), Lf('V', 2)))):
+        out.append(('vec', (kind, 'udict', blocks)))
+        out.append(('vec', ('T', (kind, 'udict', blocks))))
     from ..catalogue import other_stokes_programs
     out += [(fam, e) for fam in ('iquv', 'qu') for e in other_stokes_programs(fam) if not _has_lazy_other(e)]
     from .. import cplx
